@@ -10,7 +10,7 @@ from common import R, fl
 
 from common import wiring_pre_build as pre_build  # noqa: E402,F401
 
-LEAN_MODULES = ["PyomaVerif.Props.C11", "PyomaVerif.Mutants.C11", "PyomaVerif.Props.WiringMpe"]
+LEAN_MODULES = ["PyomaVerif.Props.C11", "PyomaVerif.Mutants.C11", "PyomaVerif.Props.WiringMpe", "PyomaVerif.Props.C11Stored"]
 THEOREMS = [
     # call-site wiring of the class layer, regenerated from /repo on every run (translate_wiring.py)
     "PV.WiringMpe.C11_ssi_mpe_args",
@@ -35,6 +35,9 @@ THEOREMS = [
     "PV.C11.Mutants.any_close_mutant_only_partial",
     "PV.C11.Mutants.plscf_label7_finds_nothing",
     "PV.C11.Mutants.plscf_label1_would_find",
+    # depth round (audit C11 gap 4): extraction from the STORED tables (one mask, C09) returns whole retained poles with their unfiltered values
+    "PV.C11Stored.C11_stored_whole",
+    "PV.C11Stored.C11_run_extract",
 ]
 RULE = (
     "correspondence: ssi.SSI_mpe / plscf.pLSCF_mpe vs Mpe.ssiMpe / Mpe.plscfMpe on random pole tables (<= 10x10, values on a "
